@@ -116,6 +116,8 @@ def _impl(case) -> str:
         return f"max={max(depths)} first={'ok' if states[0] == want0 else states[0]} rest={'ok' if rest_ok else 'bad'}"
     if kind == "inline":
         return _inline(case)
+    if kind == "iprog":
+        return _iprog(case)
     raise ValueError(kind)
 
 
@@ -172,9 +174,90 @@ def _inline(case) -> str:
     return f"max={top} result={out[0] if out else 'pending'}"
 
 
+def _iprog(case) -> str:
+    """one generator / coroutine over explicit Deferreds, driven operation by operation, depth per operation"""
+    from twisted.internet import defer
+
+    K.quiet_logging()
+    ds = []
+    for a in case["awaits"]:
+        if a is None:
+            ds.append(defer.Deferred())
+        elif a[0] == "I":
+            ds.append(defer.succeed(a[1]))
+        else:
+            ds.append(defer.fail(K.exc_class(a[1])()))
+    if case["style"] == "gen":
+        @defer.inlineCallbacks
+        def body():
+            total = 0
+            for d in ds:
+                try:
+                    total += yield d
+                except Exception:
+                    total += 1000
+            return total
+        start = body
+    else:
+        async def co():
+            total = 0
+            for d in ds:
+                try:
+                    total += await d
+                except Exception:
+                    total += 1000
+            return total
+        start = lambda: defer.ensureDeferred(co())
+    meter = Depth()
+    res = meter.measure(start)
+    depths = [meter.max]
+    for o in case["ops"]:
+        if o[0] == "rec":
+            meter.measure(lambda: res.addBoth(K.make_recorder()))
+        else:
+            d = ds[o[1]]
+
+            def fire():
+                try:
+                    if o[0] == "fire":
+                        d.callback(o[2])
+                    else:
+                        d.errback(K.exc_class(o[2])())
+                except defer.AlreadyCalledError:
+                    pass
+            meter.measure(fire)
+        depths.append(meter.max)
+    index = {id(d): i for i, d in enumerate(ds + [res])}
+    states = []
+    for d in ds + [res]:
+        r = K.show_value(d.result, index) if hasattr(d, "result") else "-"
+        states.append(f"{'T' if d.called else 'F'}:{r}:{d.paused}")
+    if res.called:
+        res.addErrback(lambda f: None)
+    return " ".join(map(str, depths)) + " | " + " ".join(states)
+
+
+def coq_iprogram(case) -> str:
+    def aw(a):
+        if a is None:
+            return "None"
+        return "(Some (VInt (%d)%%Z))" % a[1] if a[0] == "I" else "(Some (VFail (%d)%%Z))" % a[1]
+
+    def op(o):
+        if o[0] == "rec":
+            return "IRec"
+        return ("IFire %d%%nat (%d)%%Z" if o[0] == "fire" else "IFail %d%%nat (%d)%%Z") % (o[1], o[2])
+
+    from harness.common import coq_list
+    return "(%s, %s, %s)" % ("SGen" if case["style"] == "gen" else "SCoro",
+                             coq_list(map(aw, case["awaits"]), "(option value)"), coq_list(map(op, case["ops"]), "iop"))
+
+
 def to_coq(case):
     if case["kind"] == "program":
-        return K.coq_program(case["program"])
+        return "inl " + K.coq_program(case["program"])
+    if case["kind"] == "iprog":
+        return "inr " + coq_iprogram(case)
     return None
 
 
@@ -320,8 +403,8 @@ def describe(case):
 SPEC = Spec(
     pid="C02",
     gen=gen, impl=impl, oracle=oracle, corpus=corpus, shrink=shrink,
-    coq_header="From TwLib Require Import DeferredK DeferredKShow.\nFrom C02 Require Import Run.",
-    coq_fn="run_show",
+    coq_header="From TwLib Require Import DeferredK DeferredKShow.\nFrom C02 Require Import Model InlineModel Run.",
+    coq_fn="show_case",
     to_coq=to_coq,
     nontrivial=lambda c, o: c["kind"] != "program" or " 4" in o or o.startswith("4"),
     histogram=histogram, describe=describe,
